@@ -490,7 +490,8 @@ class Check(PropertyCheck):
                 "C32_output_iff_success_fixed", "C32_output_iff_success_fixed_no_cache",
                 "C32_output_iff_success_shipped_partial", "C32_array_output_iff_success_fixed",
                 "C32_array_output_iff_success_shipped_partial", "C32_stale_output_no_cache_refuted",
-                "C32_never_clear_refuted", "C32_history_fixed_agrees"]
+                "C32_never_clear_refuted", "C32_history_fixed_agrees",
+                "C32_array_group_same_options", "C32_grouping_names_only_refuted"]
     extra_modules = ["Base.Lit", "Model.ScratchCases", "Proofs.ScratchClear"]
     allowed_axioms = []
     section_premises = [
@@ -997,7 +998,11 @@ class Check(PropertyCheck):
         attrs = r.choice([["alpha_transform", "beta_transform"], ["alpha_transform", "beta_transform", "plain_transform"],
                           TASK_ATTRS, ["alpha_transform", "alpha_other"], ["beta_transform"], TASK_ATTRS[:4]])
         optsets = r.choice([[{}], [{}], [{"memory": 1}], [{}, {"memory": 2}], [{"memory": 1, "vcpus": 2}, {"vcpus": 2, "memory": 1}],
-                            [{"batch_tags": {"a": "b c"}}, {}]])
+                            [{"batch_tags": {"a": "b c"}}, {}],
+                            # same option names, different VALUES (definition vs call-time value, another export ...)
+                            [{"memory": 4}, {"memory": 64}], [{"vcpus": 1}, {"vcpus": 8}, {"vcpus": 1}],
+                            [{"queue": "small"}, {"queue": "large"}], [{"memory": 4, "vcpus": 2}, {"memory": 4, "vcpus": 16}],
+                            [{"retries": 1}, {"retries": 5}], [{"image": "img:a"}, {"image": "img:b"}]])
         spec = []
         for i in range(n):
             attr = r.choice(attrs)
@@ -1082,7 +1087,8 @@ class Check(PropertyCheck):
             for j in jobs:
                 ns = j.task.namespace or ""
                 opts = str(sorted(j.get_options().items()))
-                info = f"{{| t_ns := {cs(ns)}; t_name := {cs(j.task.name)}; t_opts := {cs(opts)} |}}"
+                info = (f"{{| t_ns := {cs(ns)}; t_name := {cs(j.task.name)}; t_opts := {cs(opts)}; "
+                        f"t_optnames := {cs(str(sorted(j.get_options())))} |}}")
                 infos.append(info)
                 terms.append(f"bytes_eq (descr_key shipped {info}) {cs(JobDescription(j).key)} && "
                              f"bytes_eq (fullname {info}) {cs(j.task.fullname)}")
@@ -1300,6 +1306,120 @@ class Check(PropertyCheck):
                                                              "steps": repr(steps), "array": n_array}))
             shutil.rmtree(real.dir / prefix, ignore_errors=True)
 
+
+    # ------------------------------------------------------------------ submitted options (aws_batch / k8s / gcp_batch)
+    VARIED = ["memory", "vcpus", "queue", "retries", "image"]
+
+    @contextlib.contextmanager
+    def _offline_executor(self, kind, prefix):
+        """a real executor of the given kind whose cloud submit call is replaced by a recorder; yields
+        (executor, captured submit keyword dicts)"""
+        from configparser import ConfigParser
+        base = {"image": "img", "min_array_size": "2", "job_stale_time": "100000", "job_monitor_interval": "100000",
+                "code_package": "False"}
+        cap = []
+        sched = SimpleNamespace(add_job_tags=lambda *a, **k: None, log=lambda *a, **k: None)
+        cp = ConfigParser()
+        with contextlib.ExitStack() as st:
+            if kind == "aws_batch":
+                from redun.executors import aws_batch
+                cp.read_dict({"e": dict(base, queue="q", s3_scratch=prefix, aws_region="us-west-2")})
+
+                def fake(batch_job_args, queue, image=None, job_name="", array_size=0, **kw):
+                    cap.append(dict(kw, queue=queue, image=image))
+                    return {"jobId": f"fb{len(cap)}", "jobName": job_name}
+                st.enter_context(mock.patch.object(aws_batch, "batch_submit", fake))
+                ex = aws_batch.AWSBatchExecutor("e", config=cp["e"])
+            elif kind == "k8s":
+                from redun.executors import k8s
+                cp.read_dict({"e": dict(base, type="k8s", scratch=prefix)})
+                client = mock.MagicMock()
+                client.version.return_value = ("1", "27")
+
+                def fake(k8s_client, command, **kw):
+                    cap.append(dict(kw))
+                    return SimpleNamespace(metadata=SimpleNamespace(name=f"kj{len(cap)}", uid=f"u{len(cap)}"))
+                st.enter_context(mock.patch.object(k8s.k8s_utils, "K8SClient", lambda *a, **k: client))
+                st.enter_context(mock.patch.object(k8s, "k8s_submit", fake))
+                ex = k8s.K8SExecutor("e", config=cp["e"])
+            else:
+                from redun.executors import gcp_batch
+                cp.read_dict({"e": dict(base, type="gcp_batch", gcs_scratch=prefix, project="p", region="r")})
+
+                def fake(**kw):
+                    cap.append(dict(kw))
+                    return SimpleNamespace(task_groups=[SimpleNamespace(task_count=kw.get("task_count", 1), name=f"tg{len(cap)}")],
+                                           uid=f"u{len(cap)}", name=f"n{len(cap)}")
+                st.enter_context(mock.patch.object(gcp_batch.gcp_utils, "get_gcp_batch_client", lambda *a, **k: mock.MagicMock()))
+                st.enter_context(mock.patch.object(gcp_batch.gcp_utils, "get_gcp_compute_client", lambda *a, **k: mock.MagicMock()))
+                st.enter_context(mock.patch.object(gcp_batch.gcp_utils, "get_compute_machine_type",
+                                                   lambda *a, **k: SimpleNamespace(memory_mb=1024 * 1024, guest_cpus=256)))
+                st.enter_context(mock.patch.object(gcp_batch.gcp_utils, "batch_submit", fake))
+                ex = gcp_batch.GCPBatchExecutor("e", config=cp["e"])
+            ex._scheduler = sched
+            ex.log = lambda *a, **k: None
+            try:
+                yield ex, cap
+            finally:
+                ex.arrayer.stop()
+
+    def _run_array_options(self, real, kind, prefix, spec):
+        """every job must be submitted (alone or in an array) with its own resolved options"""
+        jobs = self._mk_jobs(real, spec)
+        problems = []
+        with self._offline_executor(kind, prefix) as (ex, cap):
+            subs = []
+            orig_arr, orig_single = ex._submit_array_job, ex._submit_single_job
+
+            def arr(js):
+                n0 = len(cap)
+                r_ = orig_arr(js)
+                subs.append((list(js), cap[n0:]))
+                return r_
+
+            def single(j):
+                n0 = len(cap)
+                r_ = orig_single(j)
+                subs.append(([j], cap[n0:]))
+                return r_
+            ex._submit_array_job, ex._submit_single_job = arr, single
+            for j in jobs:
+                ex.arrayer.add_job(j)
+            for d in list(ex.arrayer.pending):
+                ex.arrayer.submit_pending_jobs(d)
+            submitted = [j for js, _ in subs for j in js]
+            if sorted(j.eval_hash for j in submitted) != sorted(j.eval_hash for j in jobs):
+                problems.append(f"{kind}: not every job was submitted exactly once")
+            for js, calls in subs:
+                if len(calls) != 1:
+                    problems.append(f"{kind}: {len(calls)} submit calls for one submission")
+                    continue
+                for j in js:
+                    for name, want in j.get_options().items():
+                        if name in self.VARIED and name in calls[0] and calls[0][name] != want:
+                            problems.append(f"{kind}: {j.task.fullname}{j.args[0]!r} with {name}={want!r} was submitted in "
+                                            f"{'an array of ' + str(len(js)) if len(js) > 1 else 'a single job'} with "
+                                            f"{name}={calls[0][name]!r} (options of the array's first job {js[0].get_options()!r})")
+        shutil.rmtree(real.dir / prefix, ignore_errors=True)
+        return problems
+
+    def _oracle_array_options(self, real):
+        g = Gen(self.rng)
+        n = 45 if self.tier == "quick" else 900
+        fixed = [("alpha_transform", (1,), {}, {"memory": 4}), ("alpha_transform", (2,), {}, {"memory": 64}),
+                 ("alpha_transform", (3,), {}, {"memory": 4}), ("alpha_transform", (4,), {}, {"memory": 64})]
+        for k in range(n):
+            kind = ["aws_batch", "k8s", "gcp_batch"][k % 3]
+            spec = fixed if k < 3 else self._job_mix(real, g)
+            if k >= 3 and self.rng.random() < 0.5:
+                self.rng.shuffle(spec)
+            problems = self._run_array_options(real, kind, f"ao{k}", spec)
+            self.stat("oracle_array_options", kind)
+            self.count(("array-options", kind, repr(spec)), len(spec))
+            if problems and len(self.findings) < 60:
+                self.findings.append(Finding(f"array-options:{kind}:{sorted({a for a, _, _, _ in spec})}"[:200], problems[0],
+                                             {"kind": "array-options", "executor": kind, "spec": repr(spec)}))
+
     # ------------------------------------------------------------------ oracle
     def oracle(self):
         real = Real()
@@ -1314,6 +1434,7 @@ class Check(PropertyCheck):
             for name, fn in (("jobnames", self._oracle_jobnames), ("single", lambda: self._oracle_single(real)),
                              ("arrays", lambda: self._oracle_arrays(real)),
                              ("array_path", lambda: self._oracle_array_path(real)),
+                             ("array_options", lambda: self._oracle_array_options(real)),
                              ("attempts", lambda: self._oracle_attempts(real)),
                              ("histories", lambda: self._oracle_histories(real)),
                              ("subprocess", lambda: self._oracle_subprocess(real)),
@@ -1549,6 +1670,10 @@ class Check(PropertyCheck):
             if probs:
                 bad = probs[0][1]
             shutil.rmtree(real.dir / "rp", ignore_errors=True)
+        elif r.get("kind") == "array-options":
+            probs = self._run_array_options(real, r["executor"], "rp", eval(r["spec"]))
+            if probs:
+                bad = probs[0]
         elif r.get("kind") == "history":
             probs = self._run_history(real, "rp", r["task"], r["path"], eval(r["steps"]), r.get("array", 0))
             if probs:
